@@ -13,6 +13,9 @@ pub mod c12;
 pub mod c13;
 pub mod c18;
 pub mod c20;
+pub mod c24;
+pub mod c25;
+pub mod c26;
 pub mod c28;
 pub mod c32;
 pub mod c38;
@@ -69,6 +72,9 @@ pub fn run(prop: &str, args: &Args) -> i32 {
         "C20" => c20::run_c20(args),
         "C21" => c20::run_c21(args),
         "C22" => c20::run_c22(args),
+        "C24" => c24::run(args),
+        "C25" => c25::run(args),
+        "C26" => c26::run(args),
         "C28" => c28::run(args),
         "C32" => c32::run(args),
         "C38" => c38::run(args),
